@@ -88,6 +88,10 @@ func (c *context) collectEnvInputs(m *manifestBuilder) {
 		llgoWasiThreads,
 		llgoStdioNobuf,
 		llgoFullRpath,
+		// prepended to every clang invocation by internal/clang (mergeCompilerFlags, mergeLinkerFlags)
+		"CCFLAGS",
+		"CFLAGS",
+		"LDFLAGS",
 	}
 	for _, envVar := range envVars {
 		if v := os.Getenv(envVar); v != "" {
